@@ -22,6 +22,8 @@ ACTIONS_QUICK = ["keep", "del", "src1", "src3", "src4", "src6", "rerun", "ec", "
                  "att_add", "att_del", "att_edit", "att_rename"]
 ACTIONS_FULL = sorted(set(G.CODE_ACTIONS + G.MD_ACTIONS), key=lambda a: (G.CODE_ACTIONS + G.MD_ACTIONS).index(a))
 ACTIONS_PAIR = ["keep", "del", "src1", "src6", "rerun", "out_edit", "md_edit", "dup", "att_edit"]
+ACTIONS_F12 = ["src1"]
+ACTIONS_RENDER = ["keep", "src1", "src4", "rerun", "out_edit", "md_edit", "id", "att_edit", "del"]
 INSERTS = [None, "N1", "N2", "Nm"]
 
 
